@@ -50,7 +50,7 @@ namespace Dune
         //`MPI_Op_free` is never called.  It is never called because there is no easy
         // way to call it at the right moment: right before the call to MPI_Finalize.
         // See https://gitlab.dune-project.org/core/dune-istl/issues/80
-        MPI_Op_create((void (*)(void*, void*, int*, MPI_Datatype*))&operation,true,op.get());
+        MPI_Op_create((void (*)(void*, void*, int*, MPI_Datatype*))&operation,false,op.get());
       }
       return *op;
     }
